@@ -878,11 +878,14 @@ def _extract_cd_target(node) -> str | None:
 
 def _resolve_cd_target(target: str, cwd: Path) -> Path:
     """Resolve a cd target path to an absolute Path."""
-    if target.startswith("~"):
+    if target == "~" or target.startswith("~/"):
         home = Path.home()
         if target == "~":
             return home
-        return home / target[2:]  # ~/foo -> home / foo
+        return (home / target[2:].lstrip("/")).resolve()  # ~/foo -> home / foo
+    if target.startswith("~"):
+        # ~user: another account's home; the name is all there is to go by
+        return Path(target)
     if target.startswith("/"):
         return Path(target)
     return (cwd / target).resolve()
